@@ -201,11 +201,15 @@ Proof.
   inversion Hl; subst. destruct i; cbn; constructor; auto.
 Qed.
 
+Lemma stable_trans a b c : stable a b -> stable b c -> stable a c.
+Proof. intros [A1 A2] [B1 B2]. split; auto. Qed.
+
 Lemma run_ok sched : forall ps st, coherent e st -> all_ok st ps ->
-  Forall good (snd (run e sched ps st)) /\ coherent e (fst (run e sched ps st)).
+  Forall good (snd (run e sched ps st)) /\ coherent e (fst (run e sched ps st)) /\
+  stable st (fst (run e sched ps st)).
 Proof.
   induction sched as [|t sch IH]; intros ps st Hc Hall; cbn [run].
-  { split; [constructor | exact Hc]. }
+  { split; [constructor | split; [exact Hc | apply stable_refl]]. }
   destruct (nth_error ps t) as [p|] eqn:Hnth; [|apply IH; auto].
   assert (Hp : prog_ok st p).
   { unfold all_ok in Hall. rewrite Forall_forall in Hall. apply Hall. eapply nth_error_In; eauto. }
@@ -214,9 +218,9 @@ Proof.
   assert (Hall' : all_ok st' (update t p' ps)).
   { apply Forall_update; auto. unfold all_ok in *. eapply Forall_impl; [|exact Hall].
     intros q. apply prog_ok_stable; auto. }
-  destruct (IH (update t p' ps) st' Hc' Hall') as [Hg Hcf].
+  destruct (IH (update t p' ps) st' Hc' Hall') as (Hg & Hcf & Hsf).
   destruct (run e sch (update t p' ps) st') as [stf evs]. cbn [fst snd] in *.
-  split; auto. apply Forall_app. split; auto.
+  split; [apply Forall_app; split; auto|]. split; [exact Hcf|]. eapply stable_trans; eauto.
 Qed.
 
 Lemma init_all_ok st ths :
@@ -238,7 +242,7 @@ Lemma deterministic_gen st0 ths sched :
     In o (nth t ths []) -> r = run_op e st0 o.
 Proof.
   intros Hc H1 H2 Hwf t o r Hin Ho.
-  destruct (run_ok sched _ st0 Hc (init_all_ok st0 ths H1 H2 Hwf)) as [Hg _].
+  destruct (run_ok sched _ st0 Hc (init_all_ok st0 ths H1 H2 Hwf)) as (Hg & _ & _).
   rewrite Forall_forall in Hg. specialize (Hg _ Hin). unfold good in Hg. cbn in Hg. subst r.
   symmetry. apply run_op_det with k10 k20; auto.
   unfold wf_threads in Hwf. rewrite Forall_forall in Hwf.
@@ -346,6 +350,27 @@ Lemma run_coherent e k1 k2 st0 ths sched :
 Proof.
   intros Hc H1 H2 Hwf.
   apply (run_ok e sched _ st0 Hc (init_all_ok e k1 k2 st0 ths H1 H2 Hwf)).
+Qed.
+
+(* What was loaded before the concurrent phase is still what the final state holds, whatever the
+   schedule did (reloads, invalidations, redundant loads): the table is the disk's, the pool the
+   disk's. *)
+Lemma final_state e k1 k2 st0 ths sched :
+  coherent e st0 ->
+  (k1 = true -> fonts_loaded e st0) -> (k2 = true -> pool_loaded e st0) ->
+  wf_threads k1 k2 ths ->
+  let stf := fst (run e sched (map init_prog ths) st0) in
+  (fonts_loaded e st0 -> s_once stf = true /\ e_fonts e = Some (s_fonts stf)) /\
+  (pool_loaded e st0 -> s_pool stf = e_pool e /\ e_pool e <> None) /\
+  s_cfg stf = true.
+Proof.
+  intros Hc H1 H2 Hwf stf.
+  destruct (run_ok e sched _ st0 Hc (init_all_ok e k1 k2 st0 ths H1 H2 Hwf)) as (_ & Hcf & [S1 S2]).
+  fold stf in Hcf, S1, S2. destruct Hcf as (Hcfg & Hf & _).
+  split; [|split; [|exact Hcfg]].
+  - intros HL. destruct (S1 HL) as [Ho Hne]. split; [exact Ho|].
+    specialize (Hf Ho). destruct (e_fonts e) as [t|]; [destruct Hf as [_ ->]; reflexivity | congruence].
+  - intros HP. destruct (S2 HP) as (p & Hp & Hs). rewrite Hp, Hs. split; [reflexivity | discriminate].
 Qed.
 
 Lemma init_coherent e : coherent e (fst (step e SDisable init_state)).
